@@ -310,6 +310,9 @@ var c06Texts = func() []string {
 		`inf`, `NaN`, `"a" `, ` "a"`, ` 42 `, `"unterminated`, `unopened"`, `{"a":`, `<p>html &amp; "attr"='x'</p>`, `</script><script>alert(1)</script>`, `&lt;`, "é", "ü", "日本語", "😀", "👨‍👩‍👧", "\u2028", "\u2029", "\ufeffbom",
 		"\ufffd", "\u00a0nbsp", "emoji 🎉 and \"quotes\" and \\ backslash\nnewline", `%s %d %%`, `$1 ${x}`, "'single'", "`backtick`", strings.Repeat("long ", 40), strings.Repeat(`\"`, 20), strings.Repeat("\"", 7),
 		`a\`, `a\\`, `\"a\"`, `{"type":"Delete"}`, `","type":"Delete`, `\",\"type\":\"Delete`,
+		// astral code points whose low sixteen bits are those of a character the writers treat on its own (U+2028, U+2029, quote,
+		// backslash, newline, U+FFFD): a writer that looks at a truncated rune takes them for it
+		"\U00012028", "\U00022029", "\U00102029", "\U00010022 \U0001005C \U0001000A \U0001FFFD \U0010FFFF", "a\U00012028b\U00022029c",
 	}
 	var printable strings.Builder
 	for c := byte(0x20); c < 0x7f; c++ {
